@@ -47,6 +47,10 @@ fn check(st: &St, thresholds: &[f64], comparisons: &mut u64) -> Option<(String, 
     if tracked.len() as f64 > bound + 1e-9 {
         return Some(("table size".into(), format!("{} tracked elements exceed width*(H(ceil(n/width))+1) = {:.3} at n = {}", tracked.len(), bound, st.n)));
     }
+    // rounding envelope: width = ceil(fl(1/eps)) >= (1/eps)(1 - 2^-53), so an untracked element has true <= eps*n*(1 + 2^-52);
+    // the query bound ceil(fl(fl(s - eps) * n)) is off the real (s - eps)*n by at most 2^-52 * max(s, eps) * n, and the oracle's
+    // own products s*n, eps*n carry 2^-53 relative: 8 * 2^-53 * max(s, eps) * n covers the sum
+    let env = |s: f64| -> f64 { 8.0 * (f64::EPSILON / 2.0) * s.max(eps) * n };
     let truth = |x: u32| -> u64 { if x < 3 { st.abc[x as usize] } else if x >= 1000 && x < 1000 + st.fresh { 1 } else { 0 } };
     for &s in thresholds {
         let mut res: Vec<u32> = lc.query(s).collect();
@@ -61,7 +65,7 @@ fn check(st: &St, thresholds: &[f64], comparisons: &mut u64) -> Option<(String, 
             *comparisons += 1;
             let t = truth(x) as f64;
             let lim = (s - eps) * n;
-            if t < lim && (lim - t) > 1e-9 * lim.abs().max(1.0) {
+            if t < lim && (lim - t) > env(s) {
                 return Some(("intruder".into(), format!("query({}) contains element {} with true frequency {} < (s-eps)*n = {:.6} (n={}, eps={})", s, x, t, lim, st.n, eps)));
             }
             if t == 0.0 {
@@ -82,10 +86,10 @@ fn check(st: &St, thresholds: &[f64], comparisons: &mut u64) -> Option<(String, 
             *comparisons += 1;
             let a = s * n;
             let b = eps * n;
-            let clear = t >= a && t > b && (t - a) >= 1e-9 * a.max(1.0) * 0.0 && (t - b) > 1e-9 * b.max(1.0);
-            // skip exact ties with s*n up to rounding: require t >= a with a margin only when a > 0
-            let tie = (t - a).abs() <= 1e-9 * a.max(1.0) && a > 0.0;
-            if clear && !tie && res.binary_search(&x).is_err() {
+            // margins = the rounding envelope of the implementation's own f64 arithmetic (see env): a tie with s*n or
+            // eps*n up to that envelope is not judged
+            let clear = t > b && (t - b) > env(s) && (a == 0.0 || (t - a) >= env(s));
+            if clear && res.binary_search(&x).is_err() {
                 return Some(("miss".into(), format!("query({}) misses element {} with true frequency {} >= s*n = {:.6} and > eps*n = {:.6} (n={})", s, x, t, a, b, st.n)));
             }
         }
@@ -203,11 +207,17 @@ fn main() {
     let mut run = Runner::new("C09", &args.tier, "model_checking");
     let thorough = run.thorough();
     let depth = if thorough { 12 } else { 10 };
-    let ctors: Vec<Ctor> = (1..=5).map(Ctor::Width).chain([0.9, 0.5, 0.34, 0.3, 0.21].into_iter().map(Ctor::Eps)).collect();
+    let mut ctors: Vec<Ctor> = (1..=5).map(Ctor::Width).chain([0.9, 0.5, 0.34, 0.3, 0.21].into_iter().map(Ctor::Eps)).collect();
+    // epsilon corners: just below / at / just above 1/k (the width must be ceil(1/epsilon): one more window slot as soon as
+    // epsilon drops below 1/k), and the two ends of (0, 1)
+    let prev = |x: f64| f64::from_bits(x.to_bits() - 1);
+    let next = |x: f64| f64::from_bits(x.to_bits() + 1);
+    let n_plain = ctors.len();
+    ctors.extend([prev(1.0), 1.0 - 1e-10, next(0.5), prev(0.5), 0.5 - 1e-12, 0.5 - 1e-10, 1.0 / 3.0, prev(1.0 / 3.0), 1.0 / 3.0 - 1e-11, prev(0.25), 0.25 - 1e-10, prev(0.2)].into_iter().map(Ctor::Eps));
     let mut jobs: Vec<(Ctor, i32, usize)> = vec![];
-    for &c in &ctors {
+    for (ci, &c) in ctors.iter().enumerate() {
         for first in 0..4 {
-            jobs.push((c, first, depth));
+            jobs.push((c, first, if ci < n_plain { depth } else { depth - 2 }));
         }
         for g in 0..5 {
             jobs.push((c, -1 - g, if thorough { 30_000 } else { 4_000 }));
@@ -247,6 +257,6 @@ fn main() {
     run.ev.set("exhaustive", json!(true));
     run.ev.set("samples", json!([{"constructor": "Width(2)", "stream": ["a", "fresh", "a", "b", "fresh", "fresh", "a", "c", "b"], "checked": "at every prefix: n(), add's return value vs query(0) before, table size bound, no misses / no intruders for 21+3 thresholds"}]));
     run.ev.set("rule", json!("every stream over {a,b,c,fresh} up to the depth (fresh = never-seen element), every prefix; plus 5 boundary-adversarial generators per constructor checked at every prefix"));
-    run.ev.assume("comparisons within 1e-9 relative of a boundary (true = s*n or true = eps*n) are skipped: the implementation compares in f64");
+    run.ev.assume("comparisons within the f64 rounding envelope 8 * 2^-53 * max(s, eps) * n of a boundary (true = s*n or true = eps*n) are not judged: the implementation computes width and the query bound in f64");
     run.finish();
 }
